@@ -14,6 +14,8 @@ OWN_PREFIX = ("once:", "idx:")
 
 
 def own(key):
+    if key.startswith("cbsetsrv:"):
+        return PROP
     if key.startswith(OWN_PREFIX):
         return PROP
     if key.startswith("frame:"):
@@ -39,6 +41,15 @@ def run(tier, seed, scale=1.0):
     res.merge(vdriver.explore(sp, n_main, chunk=max(250, n_main // 128), chunk_timeout=600))
     sp2 = common.spec("simnet", "hostile-cancelcb", seed)
     res.merge(vdriver.explore(sp2, n_ccb, chunk=max(100, n_ccb // 64), chunk_timeout=600))
+    # completion callbacks that replace the server list: confined to its own sub-workload, every key of it carries
+    # the history it came from ("cbsetsrv:") so that the listed finding cannot hide anything found elsewhere
+    n_ss = int((3000 if tier == "quick" else 200000) * scale)
+    r3 = vdriver.explore(common.spec("simnet", "hostile-setsrvcb", seed), n_ss, chunk=max(50, n_ss // 64), chunk_timeout=600)
+    for v in r3.violations:
+        v["key"] = "cbsetsrv:" + v["key"]
+    r3.counters = {"setsrvcb_" + k: v for k, v in r3.counters.items() if k in ("cases", "reentrant_set_servers", "requests", "transmissions")}
+    r3.fps = set()
+    res.merge(r3)
     return common.finish(PROP, tier, seed, "exploration", res, own, RULE, t0,
                          min_conclusive=int(5000 * scale),
                          assumptions=["virtual socket layer and servers model a UDP/TCP network faithfully enough",
